@@ -212,6 +212,20 @@ def special_molecules():
     # isotope masses beyond 2^53 that differ in their last digit (numbers are integers of any size)
     out.append(("mass2p53", M([("C", 2**53 + 1, 0, 0), ("C", 2**53, 0, 0), ("C", 2**53 + 2, 0, 0), ("O", 0, 0, 0)], [(0, 3, 1), (1, 3, 1), (2, 3, 1)])))
     out.append(("mass1e30", M([("N", 10**30 + 7, 0, 0), ("N", 10**30 + 8, 2, 0)], [(0, 1, 2)])))
+    # labels that are integers of another integral type (values taken from an array or a data frame column)
+    try:
+        import numpy as np
+        eth = [("C", 0, 0, 0), ("C", 0, 0, 0), ("O", 0, 0, 0)] + [("H", 0, 0, 0)] * 6
+        ethb = [(0, 1, 1), (1, 2, 1), (0, 3, 1), (0, 4, 1), (0, 5, 1), (1, 6, 1), (1, 7, 1), (2, 8, 1)]
+        for nm, at, val in (("np-ethanol-1-13C", 0, np.int64(13)), ("np-ethanol-2-13C", 1, np.int64(13)), ("np-ethanol-18O", 2, np.int32(18))):
+            atoms = list(eth)
+            atoms[at] = (atoms[at][0], val, 0, 0)
+            out.append((nm, M(atoms, ethb)))
+        out.append(("np-ethanol", M(eth, ethb)))
+        out.append(("np-OH-rad", M([("O", 0, np.int64(2), 0), ("H", np.uint8(2), 0, 0)], [(0, 1, 1)])))
+        out.append(("np-NH4+Cl-", M([("N", np.int64(15), 0, np.int8(1)), ("Cl", 0, 0, np.int64(-1))] + [("H", 0, 0, 0)] * 4, [(0, 2, 1), (0, 3, 1), (0, 4, 1), (0, 5, 1)])))
+    except ImportError:
+        pass
     # every element once (symbol table, Hill order, prefix-sharing symbols), bonded in a chain ordered by a fixed shuffle
     order = list(gen.SYMBOLS)
     random.Random(118).shuffle(order)
